@@ -168,9 +168,18 @@ type goValBuilder struct {
 	inpkg *types.Package
 	err   error
 	note  []string
+
+	deadline time.Time
 }
 
 func (b *goValBuilder) val(term string) string {
+	if b.err != nil {
+		return "0"
+	}
+	if !b.deadline.IsZero() && time.Now().After(b.deadline) {
+		b.err = fmt.Errorf("replay budget (90 s of model queries) exhausted: the model is too large to materialise")
+		return "0"
+	}
 	vals, err := getValues(b.e, b.o, []string{term}, b.pins)
 	if err != nil {
 		b.err = err
@@ -285,7 +294,9 @@ func replayModel(w *World, fr *FuncResult, o *Oblig, r SolveResult, verif, prop,
 		// panic inside an inlined callee: still a panic of the root call
 	}
 	root := e.rootEntry
-	b := &goValBuilder{e: e, o: o, h: root, inpkg: fn.Pkg.Pkg}
+	// every model value costs one solver call: a model with a long slice must not turn
+	// the replay into hours of queries (the violation is reported either way)
+	b := &goValBuilder{e: e, o: o, h: root, inpkg: fn.Pkg.Pkg, deadline: time.Now().Add(90 * time.Second)}
 	inputs := map[string]string{}
 	var argExprs []string
 	sig := fn.Signature
